@@ -331,7 +331,7 @@ class Blob(Column):
             raise Exception("expecting a binary, got a %s" % type(value))
 
         val = super(Bytes, self).to_database(value)
-        return bytearray(val)
+        return bytes(val)
 
 
 Bytes = Blob
